@@ -1,6 +1,7 @@
 package checks
 
 import (
+	"errors"
 	"bytes"
 	"fmt"
 	"math/rand"
@@ -211,11 +212,31 @@ func c07Calls(r *rand.Rand, st *stack, nic mon.NIC, e gen.Env, n int) []txCall {
 				}})
 		case 8:
 			src, dst, dm, id, seq := any4(), any4(), randMAC(r), rw(r), rw(r)
+			// an address the IPv4 header cannot carry (the other family, or none at all) on either side, or both: the call must
+			// fail and send nothing - never a datagram with some other address in its place
+			wrongFamily := r.Intn(5) == 0
+			if wrongFamily {
+				bad := []netip.Addr{any6(), {}, netip.MustParseAddr("::ffff:10.1.1.1"), netip.MustParseAddr("fe80::1%eth0")}[r.Intn(4)]
+				switch r.Intn(3) {
+				case 0:
+					src = bad
+				case 1:
+					dst = bad
+				default:
+					src, dst = bad, any6()
+				}
+			}
 			calls = append(calls, txCall{api: "ICMP4SendEchoRequest", args: fmt.Sprintf("%v>%v/%x id=%d seq=%d", src, dst, dm[:], id, seq),
 				call: func() error {
 					return s.ICMP4SendEchoRequest(packet.Addr{MAC: hw(randMAC(r)), IP: src}, packet.Addr{MAC: hw(dm), IP: dst}, id, seq)
 				},
 				verify: func(err error, fr []mon.TxFrame, in []mon.TxInfo) string {
+					if wrongFamily {
+						if err == nil || len(fr) != 0 {
+							return fmt.Sprintf("wrong-family: returned %v and sent %d frames for addresses an IPv4 header cannot carry", err, len(fr))
+						}
+						return ""
+					}
 					if x := one(fr); x != "" {
 						return x
 					}
@@ -368,8 +389,18 @@ func c07Calls(r *rand.Rand, st *stack, nic mon.NIC, e gen.Env, n int) []txCall {
 				}})
 		case 14:
 			dst, dm := any4(), randMAC(r)
+			wrongFamily := r.Intn(5) == 0
+			if wrongFamily {
+				dst = []netip.Addr{any6(), {}, netip.MustParseAddr("::ffff:10.1.1.1")}[r.Intn(3)]
+			}
 			calls = append(calls, txCall{api: "Ping", args: dst.String(), call: func() error { return s.Ping(packet.Addr{MAC: hw(dm), IP: dst}, time.Second) },
 				verify: func(err error, fr []mon.TxFrame, in []mon.TxInfo) string {
+					if wrongFamily {
+						if err == nil || errors.Is(err, packet.ErrTimeout) || len(fr) != 0 {
+							return fmt.Sprintf("wrong-family: returned %v and sent %d frames for a destination an IPv4 header cannot carry", err, len(fr))
+						}
+						return ""
+					}
 					if x := one(fr); x != "" {
 						return x
 					}
